@@ -1,8 +1,15 @@
 """C11 -- a deprecated name behaves exactly like its replacement.
 
-Tree with new options of every type (visible, conditionally hidden, promptless) and one option whose NAME is also an old
-name of the rename alphabet; rename tables = every 1- and 2-line selection of the alphabet (2-line tables also split over
-two files); sdkconfig files = every ordered sequence of <=2 (quick) / <=3 (thorough) lines over
+Base tree with new options of every type (visible, conditionally hidden, promptless), one option whose NAME is also an old
+name of the rename alphabet, and options whose names contain the text `CONFIG_` again after the prefix (plus the options a
+"remove every CONFIG_" mangling of those names would hit).  Tree shapes:
+  plain    no Kconfig expression mentions a deprecated name (the old name has no Symbol object at all);
+  mention  every deprecated name of the table occurs in a `default y if <rel>`, a `depends on <rel>` and a
+           `select XT if <rel>` condition, so it exists in Kconfig.syms as an undefined, node-less symbol;
+  mention_default / mention_depends / mention_select (thorough, 1-line tables): one of the three positions only.
+Rename tables = every 1- and 2-line selection of the alphabet (2-line tables also split over two files); the alphabet has
+old names and new names with an embedded / doubled prefix (CONFIG_OLD_CONFIG_B, CONFIG_CONFIG_OLD_B, CONFIG_E_CONFIG_B ...).
+sdkconfig files = every ordered sequence of <=2 (quick) / <=3 (thorough) lines over
 {OLD=v, NEW=v, # OLD is not set, # NEW is not set} for the names the table mentions.
 
 Oracles
@@ -11,8 +18,10 @@ Oracles
       OLD=v -> NEW=v (y/n swapped for `!` renames of bools), `# OLD is not set` -> `# NEW is not set` (NEW=y if inverted);
   (2) an old name whose replacement is defined never appears in missing_syms; any table / file must load without raising;
   (3) a file written with the deprecated block, loaded with the default flag, equals the same file with the block cut out,
-      even when the block is edited to contradict the body; loaded with load_deprecated=True, eval_string on each bool
-      alias gives the value that was written.
+      even when the block is edited to contradict the body; loaded with load_deprecated=True, eval_string on each alias
+      gives the value that was written, no alias is listed in missing_syms, and (mention trees) the tree's own expressions
+      over the alias -- X<i> `default y if <rel>`, XDEP `depends on <rel>...`, XT selected `if <rel>` -- take the value
+      that <rel> has for the written entry (<rel> is: OLD for bools, OLD < 8, OLD < 0x20, OLD = "d"; n while OLD is undefined).
 """
 
 from __future__ import annotations
@@ -22,20 +31,29 @@ import re
 from typing import Any, Dict, Iterator, List, Optional, Tuple
 
 from .. import common, impl, kgen
-from ..kgen import Cfg, L, Program, S
+from ..kgen import Cfg, L, Or, Program, Rel, S
 
 ID = "C11"
 LEVEL = "exploration"
 RULE = (
-    "1 tree x all 1- and 2-line rename tables over a 14-line alphabet (2-line tables as one file and split over two files) x all "
-    "ordered sdkconfig files of <=2 (quick) / <=3 (thorough) lines over the old/new names of the table in the forms =v, `is not set`; "
-    "plus, per table x configuration, the deprecated-block clauses. distinct_nontrivial = distinct (table, file) pairs in which at least "
-    "one line uses a deprecated name."
+    "tree shapes {plain, mention} (thorough: + mention_default, mention_depends, mention_select over the 1-line tables) x all 1- and "
+    "2-line rename tables over a 19-line alphabet incl. names with the prefix text embedded / doubled (2-line tables as one file and "
+    "split over two files; quick crosses the split tables with the plain tree only) x all ordered sdkconfig files of <=2 (quick) / <=3 (thorough) lines over the old/new names of the table in "
+    "the forms =v, `is not set`; plus, per tree x single-file table x configuration, the deprecated-block clauses (default flag and "
+    "load_deprecated=True). A mention tree is generated per table (it mentions the table's old names that are not defined options; a "
+    "table without such a name has no mention tree). distinct_nontrivial = distinct (tree, table, file) triples in which at least one "
+    "line uses a deprecated name + distinct (tree, table, configuration) triples whose written file has a deprecated block."
 )
 ASSUMPTIONS = [
     "a mapping to an option that is not defined carries no obligation except not raising and not disturbing other options",
     "hand-written files carry no `# default:` markers in front of deprecated names",
+    "the reference load of a translated file is computed once per (tree, table, translated text): loading is deterministic (the runner "
+    "re-executes every reported case twice in fresh processes)",
+    "a deprecated name mentioned by a Kconfig expression and NOT loaded from a requested deprecated block is an ordinary undefined "
+    "symbol (evaluates to n / its own name); only the equivalence of the two spellings is demanded there",
 ]
+
+PREFIX = "CONFIG_"
 
 ALPHABET = [
     "CONFIG_OLD_B CONFIG_B",
@@ -52,9 +70,16 @@ ALPHABET = [
     "CONFIG_DEFINED_OLD CONFIG_B",
     "CONFIG_OLD_BP CONFIG_BP",
     "CONFIG_OLD_B !CONFIG_B",
+    # the prefix text again inside a name: old side (its every-CONFIG_-removed form is the old name OLD_B), doubled prefix,
+    # new side (its mangled form E_B is another defined option), both sides + inversion, string (mangled form E_S undefined)
+    "CONFIG_OLD_CONFIG_B CONFIG_B",
+    "CONFIG_CONFIG_OLD_B CONFIG_BH",
+    "CONFIG_OLD_EB CONFIG_E_CONFIG_B",
+    "CONFIG_OLD_CONFIG_NEB !CONFIG_E_CONFIG_B",
+    "CONFIG_OLD_ES CONFIG_E_CONFIG_S",
 ]
 
-TREE = Program(children=[
+BASE = [
     Cfg("B", "bool", prompt="b"),
     Cfg("BH", "bool", prompt="bh", prompt_cond=S("B"), defaults=[(L("y"), None)]),
     Cfg("BP", "bool", defaults=[(L("y"), S("B"))]),
@@ -62,9 +87,90 @@ TREE = Program(children=[
     Cfg("H", "hex", prompt="h", defaults=[(L("0x1f"), None)]),
     Cfg("S", "string", prompt="s", defaults=[(L('"d"'), None)]),
     Cfg("DEFINED_OLD", "bool", prompt="an option whose name is also listed as deprecated"),
-])
-TYPES = {"B": "bool", "BH": "bool", "BP": "bool", "I": "int", "H": "hex", "S": "string", "DEFINED_OLD": "bool"}
+    Cfg("E_CONFIG_B", "bool", prompt="name with the prefix text inside"),
+    Cfg("E_B", "bool", prompt="what E_CONFIG_B becomes when every CONFIG_ is removed"),
+    Cfg("E_CONFIG_S", "string", prompt="string, prefix text inside", defaults=[(L('"d"'), None)]),
+]
+TYPES = {"B": "bool", "BH": "bool", "BP": "bool", "I": "int", "H": "hex", "S": "string", "DEFINED_OLD": "bool",
+         "E_CONFIG_B": "bool", "E_B": "bool", "E_CONFIG_S": "string"}
 VALS = {"bool": ["y", "n"], "int": ["7", "99"], "hex": ["0x2a"], "string": ['"v w"', '"q\\"x"']}
+
+TREE_KINDS_QUICK = ["plain", "mention"]
+TREE_KINDS_SINGLE = ["mention_default", "mention_depends", "mention_select"]  # thorough, 1-line tables
+
+
+def _split_line(line: str) -> Tuple[str, str, bool]:
+    old, new = line.split()
+    return old[len(PREFIX):], new.lstrip("!")[len(PREFIX):], new.startswith("!")
+
+
+def _old_types() -> Dict[str, str]:
+    out: Dict[str, str] = {}
+    for line in ALPHABET:
+        old, new, _inv = _split_line(line)
+        t = TYPES.get(new, "bool")
+        assert out.setdefault(old, t) == t, old  # an old name has one type over the whole alphabet
+    return out
+
+
+OLD_TYPE = _old_types()
+
+
+def rel_of(old: str) -> tuple:
+    """the condition through which a mention tree refers to an old name; n while the name is undefined"""
+    t = OLD_TYPE[old]
+    if t == "bool":
+        return S(old)
+    if t == "int":
+        return Rel("<", S(old), L("8"))
+    if t == "hex":
+        return Rel("<", S(old), L("0x20"))
+    return Rel("=", S(old), L('"d"'))
+
+
+def rel_holds(old: str, written: Optional[str]) -> bool:
+    """value of rel_of(old) when the alias was written as `written` (None: `is not set`)"""
+    t = OLD_TYPE[old]
+    if written is None:
+        return False
+    if t == "bool":
+        return written == "y"
+    if t == "int":
+        return int(written) < 8
+    if t == "hex":
+        return int(written, 16) < 0x20
+    return written == '"d"'
+
+
+def mentioned_olds(tab: Tuple[int, ...]) -> List[str]:
+    out: List[str] = []
+    for i in tab:
+        old = _split_line(ALPHABET[i])[0]
+        if old not in TYPES and old not in out:
+            out.append(old)
+    return out
+
+
+def tree_files(kind: str, tab: Tuple[int, ...]) -> Optional[Dict[str, str]]:
+    """None: this tree shape does not exist for the table"""
+    ch = list(BASE)
+    if kind != "plain":
+        olds = mentioned_olds(tab)
+        if not olds:
+            return None
+        rels = [rel_of(o) for o in olds]
+        if kind in ("mention", "mention_default"):
+            for j, rel in enumerate(rels):
+                ch.append(Cfg(f"X{j}", "bool", defaults=[(L("y"), rel)]))
+        if kind in ("mention", "mention_depends"):
+            dep = rels[0]
+            for rel in rels[1:]:
+                dep = Or(dep, rel)
+            ch.append(Cfg("XDEP", "bool", prompt="legacy option", depends=[dep], defaults=[(L("y"), None)]))
+        if kind in ("mention", "mention_select"):
+            ch.append(Cfg("XT", "bool"))
+            ch.append(Cfg("XSEL", "bool", prompt="legacy selector", defaults=[(L("y"), None)], selects=[("XT", rel) for rel in rels]))
+    return kgen.render(Program(children=ch))
 
 
 def tables(tier: str) -> Iterator[Tuple[Tuple[int, ...], bool]]:
@@ -105,24 +211,39 @@ def line_alphabet(tab: Tuple[int, ...]) -> List[str]:
 
 
 def items(tier: str, seed: int):
-    files = kgen.render(TREE)
     tabs = list(tables(tier))
-    return [{"files": files, "tables": tabs[i:i + 6], "maxlen": 2 if tier == "quick" else 3} for i in range(0, len(tabs), 6)]
+    maxlen = 2 if tier == "quick" else 3
+    out = []
+    for kind in TREE_KINDS_QUICK:
+        # (how a table is split over rename files only concerns the parsing of the table: quick crosses it with the plain tree only)
+        ts = tabs if kind == "plain" or tier != "quick" else [t for t in tabs if not t[1]]
+        out += [{"tree": kind, "tables": ts[i:i + 6], "maxlen": maxlen} for i in range(0, len(ts), 6)]
+    if tier != "quick":
+        single = [t for t in tabs if len(t[0]) == 1]
+        for kind in TREE_KINDS_SINGLE:
+            out += [{"tree": kind, "tables": single[i:i + 6], "maxlen": maxlen} for i in range(0, len(single), 6)]
+    return out
+
+
+def parse_line(line: str) -> Tuple[str, Optional[str]]:
+    """(name, value) of an assignment line, (name, None) of an `is not set` line"""
+    ms = re.match(r"CONFIG_([^=]+)=(.*)", line)
+    if ms:
+        return ms.group(1), ms.group(2)
+    mu = re.match(r"# CONFIG_([^ ]+) is not set", line)
+    return mu.group(1), None
 
 
 def translate(lines: List[str], m: Dict[str, Tuple[str, bool]]) -> List[str]:
     out = []
     for line in lines:
-        ms = re.match(r"CONFIG_([^=]+)=(.*)", line)
-        mu = re.match(r"# CONFIG_([^ ]+) is not set", line)
-        name = ms.group(1) if ms else mu.group(1)
+        name, val = parse_line(line)
         if name in TYPES or name not in m or m[name][0] not in TYPES:
             out.append(line)
             continue
         new, inv = m[name]
         t = TYPES[new]
-        if ms:
-            val = ms.group(2)
+        if val is not None:
             if inv and t == "bool":
                 val = "n" if val.startswith("y") else "y"
             out.append(f"CONFIG_{new}={val}")
@@ -161,9 +282,7 @@ def site_of(e) -> str:
 
 
 def line_class(line: str, m) -> str:
-    ms = re.match(r"CONFIG_([^=]+)=(.*)", line)
-    mu = re.match(r"# CONFIG_([^ ]+) is not set", line)
-    name = ms.group(1) if ms else mu.group(1)
+    name, val = parse_line(line)
     if name in TYPES and name in m:
         role = "defined_old"
     elif name in TYPES:
@@ -171,46 +290,61 @@ def line_class(line: str, m) -> str:
     else:
         new, inv = m[name]
         role = ("old_inv" if inv else "old") + ("" if new in TYPES else "_undefrepl") + ":" + TYPES.get(new, "?")
-    return role + ("=" + ("set" if ms else "notset"))
+        if PREFIX in name or PREFIX in new:
+            role += "+prefix_inside_" + "_".join(w for w, n in (("old", name), ("new", new)) if PREFIX in n)
+    return role + ("=" + ("set" if val is not None else "notset"))
 
 
-def check_file(files, tab, split, lines: List[str], r: common.Result) -> None:
+def check_file(files, kind, tab, split, lines: List[str], r: common.Result, cache: Optional[dict] = None) -> None:
     m = mapping_of(tab)
     rtexts = rename_texts(tab, split)
     text = "".join(l + "\n" for l in lines)
     ttext = "".join(l + "\n" for l in translate(lines, m))
-    case = {"files": files, "table": list(tab), "split": split, "lines": lines}
-    label = f"[table={[ALPHABET[i] for i in tab]}{' (2 files)' if split else ''} file={lines}]"
+    case = {"files": files, "tree": kind, "table": list(tab), "split": split, "lines": lines}
+    label = f"[tree={kind} table={[ALPHABET[i] for i in tab]}{' (2 files)' if split else ''} file={lines}]"
     classes = sorted(line_class(l, m) for l in lines)
     r.evals += 1
     try:
         _, a = observe(files, rtexts, text)
     except Exception as e:  # noqa: BLE001
-        r.violation({"kind": "load_raises", "exc": type(e).__name__, "site": site_of(e), "lines": classes}, f"{label} load raised {type(e).__name__}: {e}", case)
+        r.violation({"kind": "load_raises", "tree": kind, "exc": type(e).__name__, "site": site_of(e), "lines": classes}, f"{label} load raised {type(e).__name__}: {e}", case)
         return
-    _, b = observe(files, rtexts, ttext)
     uses_old = text != ttext
+    if not uses_old:
+        b = a  # the file is its own translation: only the missing_syms / not-raising clauses apply
+    elif cache is not None and ttext in cache:
+        b = cache[ttext]
+    else:
+        try:
+            _, b = observe(files, rtexts, ttext)
+        except Exception as e:  # noqa: BLE001
+            r.violation({"kind": "load_raises", "tree": kind, "exc": type(e).__name__, "site": site_of(e), "lines": ["translated"] + classes},
+                        f"{label} loading the translation {translate(lines, m)} raised {type(e).__name__}: {e}", case)
+            return
+        if cache is not None:
+            cache[ttext] = b
     if uses_old:
-        r.outcome((tab, split, tuple(lines)))
+        r.outcome((kind, tab, split, tuple(lines)))
     for key in ("values", "user", "config"):
         if a[key] != b[key]:
             if key == "config":
                 d = f"{a[key]!r} vs {b[key]!r}"
             else:
                 d = {n: (a[key][n], b[key][n]) for n in a[key] if a[key][n] != b[key][n]}
-            r.violation({"kind": "old_name_differs_from_new_name", "what": key, "lines": classes},
+            r.violation({"kind": "old_name_differs_from_new_name", "tree": kind, "what": key, "lines": classes},
                         f"{label} loading the file vs. its translation {translate(lines, m)} differ in {key}: {d}", case)
             break
     bad = [n for n, _v in a["missing"] if n in m and m[n][0] in TYPES and n not in TYPES]
     if bad:
-        r.violation({"kind": "deprecated_name_reported_unknown", "lines": classes}, f"{label} missing_syms lists deprecated names {bad}", case)
+        r.violation({"kind": "deprecated_name_reported_unknown", "tree": kind, "lines": classes}, f"{label} missing_syms lists deprecated names {bad}", case)
 
 
-def check_block(files, tab, split, assign: Dict[str, str], r: common.Result) -> None:
+def check_block(files, kind, tab, split, assign: Dict[str, str], r: common.Result) -> None:
     m = mapping_of(tab)
     rtexts = rename_texts(tab, split)
-    case = {"files": files, "table": list(tab), "split": split, "block_assign": assign}
-    label = f"[table={[ALPHABET[i] for i in tab]} cfg={assign} deprecated block]"
+    case = {"files": files, "tree": kind, "table": list(tab), "split": split, "block_assign": assign}
+    label = f"[tree={kind} table={[ALPHABET[i] for i in tab]} cfg={assign} deprecated block]"
+    olds = mentioned_olds(tab) if kind != "plain" else []
     r.evals += 1
     try:
         inst = impl.Inst(files, renames=rtexts)
@@ -219,15 +353,16 @@ def check_block(files, tab, split, assign: Dict[str, str], r: common.Result) -> 
         full = inst.config_text(write_deprecated=True)
         plain = inst.config_text(write_deprecated=False)
     except Exception as e:  # noqa: BLE001
-        r.violation({"kind": "write_raises", "exc": type(e).__name__, "site": site_of(e)}, f"{label} writing raised {type(e).__name__}: {e}", case)
+        r.violation({"kind": "write_raises", "tree": kind, "exc": type(e).__name__, "site": site_of(e)}, f"{label} writing raised {type(e).__name__}: {e}", case)
         return
     if "# Deprecated options for backward compatibility" not in full:
         if full != plain:
-            r.violation({"kind": "block_missing_but_text_differs"}, f"{label} no block but text differs", case)
+            r.violation({"kind": "block_missing_but_text_differs", "tree": kind}, f"{label} no block but text differs", case)
         return
+    r.outcome((kind, tab, "block", tuple(sorted(assign.items()))))
     cut = re.sub(r"\n# Deprecated options for backward compatibility\n.*?# End of deprecated options\n", "", full, flags=re.S)
     if cut != plain:
-        r.violation({"kind": "block_is_not_a_suffix_block"}, f"{label} cutting the block out of the file does not give the file written without it", case)
+        r.violation({"kind": "block_is_not_a_suffix_block", "tree": kind}, f"{label} cutting the block out of the file does not give the file written without it", case)
     # contradicting block: flip every bool alias inside the block, change numbers / strings
     def flip(mo):
         body = mo.group(1)
@@ -254,69 +389,98 @@ def check_block(files, tab, split, assign: Dict[str, str], r: common.Result) -> 
             _, got = observe(files, rtexts, txt)
             for key in ("values", "user", "config", "missing"):
                 if got[key] != ref[key]:
-                    r.violation({"kind": "block_not_ignored", "block": tag, "what": key}, f"{label} ({tag} block) default load differs from the block-less file in {key}", case)
+                    r.violation({"kind": "block_not_ignored", "tree": kind, "block": tag, "what": key}, f"{label} ({tag} block) default load differs from the block-less file in {key}", case)
                     break
         # explicit request: aliases evaluate to what was written
         inst2 = impl.Inst(files, renames=rtexts)
         inst2.load_text(full, load_deprecated=True)
         k2 = inst2.k
         blk = re.search(r"# Deprecated options for backward compatibility\n(.*?)# End of deprecated options", full, re.S).group(1)
+        written: Dict[str, Optional[str]] = {}
         for line in blk.splitlines():
-            ms = re.match(r"CONFIG_([^=]+)=(.*)", line)
-            mu = re.match(r"# CONFIG_([^ ]+) is not set", line)
-            if not (ms or mu):
+            if not re.match(r"CONFIG_[^=]+=|# CONFIG_[^ ]+ is not set", line):
                 continue
-            name = ms.group(1) if ms else mu.group(1)
+            name, val = parse_line(line)
             if name in TYPES:
                 continue
+            written[name] = val
+            # is the alias also a node-less symbol of the tree because an expression of the tree mentions it?
+            how = "mentioned_in_kconfig" if name in olds else "not_in_kconfig"
             new = m.get(name, (None, False))[0]
             if TYPES.get(new) != "bool":
                 # non-bool aliases: compare by relation
-                if ms and new in TYPES:
-                    lit = ms.group(2)
-                    ev = k2.eval_string(f"{name} = {lit}")
+                if val is not None and new in TYPES:
+                    ev = k2.eval_string(f"{name} = {val}")
                     if ev != 2:
-                        r.violation({"kind": "alias_evaluates_differently", "type": TYPES[new]}, f"{label} load_deprecated: `{name} = {lit}` evaluates to {ev}", case)
+                        r.violation({"kind": "alias_evaluates_differently", "tree": kind, "alias": how, "type": TYPES[new]}, f"{label} load_deprecated: `{name} = {val}` evaluates to {ev}", case)
                 continue
-            want = 2 if (ms and ms.group(2) == "y") else 0
+            want = 2 if val == "y" else 0
             ev = k2.eval_string(name)
             if ev != want:
-                r.violation({"kind": "alias_evaluates_differently", "type": "bool", "written": "y" if want else "n"}, f"{label} load_deprecated: alias {name} written as {'y' if want else 'n'} evaluates to {ev}", case)
+                r.violation({"kind": "alias_evaluates_differently", "tree": kind, "alias": how, "type": "bool", "written": "y" if want else "n"}, f"{label} load_deprecated: alias {name} written as {'y' if want else 'n'} evaluates to {ev}", case)
+        lost = [n for n, _v in k2.missing_syms if n in written]
+        if lost:
+            hows = sorted({"mentioned_in_kconfig" if n in olds else "not_in_kconfig" for n in lost})
+            r.violation({"kind": "requested_block_entry_reported_unknown", "tree": kind, "alias": "+".join(hows)}, f"{label} load_deprecated: missing_syms lists the block entries {lost}", case)
         vals_after = inst2.values()
+        # the tree's own expressions over the aliases (mention trees)
+        if olds:
+            holds = [rel_holds(o, written.get(o)) for o in olds]
+            want_x = {f"X{j}": h for j, h in enumerate(holds)}
+            want_x["XDEP"] = any(holds)
+            want_x["XT"] = any(holds)
+            diff = {n: (vals_after[n], "y" if w else "n") for n, w in sorted(want_x.items()) if n in vals_after and vals_after[n] != ("y" if w else "n")}
+            if diff:
+                pos = sorted({"default_if" if n.startswith("X") and n[1:].isdigit() else {"XDEP": "depends_on", "XT": "select_if"}[n] for n in diff})
+                r.violation({"kind": "tree_expression_over_alias_differs", "tree": kind, "alias": "mentioned_in_kconfig", "position": pos},
+                            f"{label} load_deprecated: block entries {written} but the options whose conditions mention them are (got, want) {diff}", case)
         # (an old name that is ALSO a defined option is assigned by its block entry when the block is requested; the
         # statement only says such entries evaluate to what was written, so that table is exempt from this sanity clause)
-        if vals_after != ref["values"] and not any(old in TYPES for old in m):
-            r.violation({"kind": "load_deprecated_changes_values"}, f"{label} load_deprecated=True changes option values: {vals_after} vs {ref['values']}", case)
+        after = {n: v for n, v in vals_after.items() if n in TYPES}
+        before = {n: v for n, v in ref["values"].items() if n in TYPES}
+        if after != before and not any(old in TYPES for old in m):
+            r.violation({"kind": "load_deprecated_changes_values", "tree": kind}, f"{label} load_deprecated=True changes option values: {after} vs {before}", case)
     except Exception as e:  # noqa: BLE001
-        r.violation({"kind": "block_load_raises", "exc": type(e).__name__, "site": site_of(e)}, f"{label} raised {type(e).__name__}: {e}", case)
+        r.violation({"kind": "block_load_raises", "tree": kind, "exc": type(e).__name__, "site": site_of(e)}, f"{label} raised {type(e).__name__}: {e}", case)
 
 
-BLOCK_CFGS = [{}, {"B": "y"}, {"B": "n"}, {"B": "y", "BH": "n", "I": "7", "S": "v w", "H": "0x2a"}, {"B": "y", "DEFINED_OLD": "y", "I": "50"}]
+BLOCK_CFGS = [{}, {"B": "y"}, {"B": "n"}, {"B": "y", "BH": "n", "I": "7", "S": "v w", "H": "0x2a", "E_CONFIG_B": "y", "E_CONFIG_S": "v w"},
+              {"B": "y", "DEFINED_OLD": "y", "I": "50"}]
 
 
 def run_item(item) -> common.Result:
     r = common.Result()
-    r.programs = 1
-    files = item["files"]
+    kind = item["tree"]
     nfiles = 0
+    sample_files = None
     for tab, split in item["tables"]:
         tab = tuple(tab)
+        files = tree_files(kind, tab)
+        if files is None:
+            continue  # no old name that a tree could mention
+        r.programs += 1
+        sample_files = sample_files or (files, tab)
         la = line_alphabet(tab)
+        cache: dict = {}
         for n in range(1, item["maxlen"] + 1):
             for lines in itertools.permutations(la, n):
-                check_file(files, tab, split, list(lines), r)
+                check_file(files, kind, tab, split, list(lines), r, cache)
                 nfiles += 1
         if not split:
             for cfg in BLOCK_CFGS:
-                check_block(files, tab, split, cfg, r)
-    r.sample = {"rename_table": [ALPHABET[i] for i in item["tables"][0][0]], "sdkconfig_files_per_table": nfiles // max(1, len(item["tables"])), "example_file": line_alphabet(tuple(item["tables"][0][0]))[:2]}
+                check_block(files, kind, tab, split, cfg, r)
+    if sample_files:
+        files, tab = sample_files
+        r.sample = {"tree": kind, "kconfig": files["Kconfig"], "rename_table": [ALPHABET[i] for i in tab],
+                    "sdkconfig_files_per_table": nfiles // max(1, len(item["tables"])), "example_file": line_alphabet(tab)[:2]}
     return r
 
 
 def replay(case) -> List[dict]:
     r = common.Result()
+    kind = case.get("tree", "plain")
     if "lines" in case:
-        check_file(case["files"], tuple(case["table"]), case["split"], case["lines"], r)
+        check_file(case["files"], kind, tuple(case["table"]), case["split"], case["lines"], r)
     else:
-        check_block(case["files"], tuple(case["table"]), case["split"], case["block_assign"], r)
+        check_block(case["files"], kind, tuple(case["table"]), case["split"], case["block_assign"], r)
     return r.viols
